@@ -103,3 +103,103 @@ Proof.
     rewrite (up_static _ _ m _ S1) in E', A'. change (up (cores s) m (parent (cores s) cur)) with (up (cores s) (S m) cur) in E', A'.
     exists s'. split; [exact E'|split; [exact A'|eapply frame_trans; eassumption]].
 Qed.
+
+(** ** applying a fully valid block on top of the only applied chain succeeds *)
+Definition ginv (base : pstate) (s : cst) : Prop := winv s /\ canon base s /\ truthful base s.
+Lemma ginv_apply : forall base s i s' ok, ginv base s -> c_applyBlock s i = Ok (s', ok) -> ginv base s'.
+Proof.
+  intros base s i s' ok (WI & C & T) H. split; [eapply winv_apply; eassumption|].
+  split; [eapply canon_apply; eassumption|eapply truthful_apply; [exact (proj1 WI)|exact C|exact T|exact H]].
+Qed.
+Lemma ginv_unapply : forall base s i s', ginv base s -> c_unapplyBlock s i = Ok s' -> ginv base s'.
+Proof.
+  intros base s i s' (WI & C & T) H. split; [eapply winv_unapply; eassumption|].
+  split; [eapply canon_unapply; eassumption|eapply truthful_unapply; eassumption].
+Qed.
+
+Lemma md_nobody_failed : forall s s' j b b', md nobody s s' ->
+    bfind (blocks _ _ s) j = Some b -> bfind (blocks _ _ s') j = Some b' -> is_failed _ b' = is_failed _ b /\ b_lvl _ b' = b_lvl _ b.
+Proof.
+  intros s s' j b b' (_ & H) F F'. destruct (H j b b' F F') as (A & B & C & D & E & G & I).
+  assert (Hl : b_lvl ccmd b' = b_lvl ccmd b).
+  { destruct (N.eq_dec (b_lvl ccmd b) (b_lvl ccmd b')) as [e|n]; [symmetry; exact e|destruct (C n)]. }
+  split; [|exact Hl]. unfold is_failed. rewrite A.
+  assert (b_fp ccmd b' = b_fp ccmd b).
+  { destruct (b_fp ccmd b) eqn:P; [apply D; reflexivity|]. destruct (b_fp ccmd b') eqn:P'; [|reflexivity]. destruct (E eq_refl) as [e|[]]. discriminate e. }
+  assert (b_fc ccmd b' = b_fc ccmd b).
+  { destruct (b_fc ccmd b) eqn:P; [apply G; reflexivity|]. destruct (b_fc ccmd b') eqn:P'; [|reflexivity].
+    destruct (I eq_refl) as [e|(x & k & [] & _)]. discriminate e. }
+  rewrite H0, H1. reflexivity.
+Qed.
+
+(* the command groups of a fully valid block succeed on the state of its parent's chain *)
+Lemma groups_succeed : forall base s cur x b,
+    alone s cur -> canon base s -> truthful base s ->
+    bfind (blocks _ _ s) x = Some b -> b_par _ b = cur -> x <> root _ _ s -> N.le L_FULL (b_lvl _ b) ->
+    exists p', gsexec pstate ccmd cexec cunexec [] (b_gs _ b) (pst _ _ s) = (p', true).
+Proof.
+  intros base s cur x b A C T Fb Hp Hxr Hl.
+  pose proof (proj1 (alone_unfold _ _) A) as (W & Ta & Hn).
+  pose proof (find_cfind _ _ _ Fb) as Cb. pose proof (find_some_in _ _ _ Fb) as [Hin Hid].
+  pose proof (wf_parent_height _ _ _ W Cb Hxr) as Hph. change (e_par (core b)) with (b_par ccmd b) in Hph. rewrite Hp in Hph.
+  assert (Hl' : N.leb L_FULL (b_lvl ccmd b) = true) by (apply N.leb_le; exact Hl).
+  destruct (T b Hin Hl') as (p' & Hp'). rewrite Hid in Hp'.
+  pose proof (alone_active _ _ _ A Ta) as [Hlo _].
+  assert (Hd : depth s x = S (depth s cur)).
+  { unfold depth. rewrite Hph.
+    replace (hgt (cores s) cur + 1 - hgt (cores s) (root pstate ccmd s)) with (Z.succ (hgt (cores s) cur - hgt (cores s) (root pstate ccmd s))) by lia.
+    rewrite Z2Nat.inj_succ by lia. reflexivity. }
+  rewrite Hd in Hp'. unfold bgs in Hp'. cbn [anc_list map rev] in Hp'.
+  assert (Hpar : parent (cores s) x = cur) by (unfold parent; rewrite Cb; exact Hp).
+  rewrite Hpar in Hp'. fold (bgs s (depth s cur) cur) in Hp'. rewrite replay_app in Hp'.
+  destruct (replay (bgs s (depth s cur) cur) base) as [pr0|] eqn:Hr0; [|discriminate].
+  assert (Hg : gs_of s x = b_gs ccmd b) by (unfold gs_of; rewrite Fb; reflexivity).
+  rewrite Hg in Hp'. cbn in Hp'.
+  destruct (gsexec pstate ccmd cexec cunexec [] (b_gs ccmd b) pr0) as [q ok] eqn:E. destruct ok; [|discriminate].
+  (* P is a permutation of pr0 *)
+  pose proof (active_items_chain (at_blk s cur) A) as HA. change (blocks pstate ccmd (at_blk s cur)) with (blocks pstate ccmd s) in HA.
+  assert (Hcg : chain_gs (at_blk s cur) = map (gs_of s) (anc_list (cores s) (depth s cur) cur)) by reflexivity.
+  rewrite Hcg in HA.
+  assert (HP : Permutation pr0 (pst _ _ s)).
+  { destruct C as [CP _]. symmetry. eapply perm_trans; [exact CP|]. symmetry. eapply perm_trans; [apply replay_items; exact Hr0|].
+    apply Permutation_app_tail. unfold bgs. eapply perm_trans; [apply flat_map_rev_perm|]. symmetry. exact HA. }
+  destruct (gsexec_perm _ [] [] _ _ _ HP E) as (q' & E' & _). exists q'. exact E'.
+Qed.
+
+Lemma applyBlock_alone : forall base s cur x b,
+    alone s cur -> ginv base s ->
+    bfind (blocks _ _ s) x = Some b -> b_par _ b = cur -> x <> root _ _ s ->
+    N.le L_FULL (b_lvl _ b) -> is_failed _ b = false ->
+    exists s', c_applyBlock s x = Ok (s', true) /\ alone s' x /\ ginv base s' /\ frame s s' /\ md nobody s s'.
+Proof.
+  intros base s cur x b A (WI & C & T) Fb Hp Hxr Hl Hnf.
+  pose proof (proj1 (alone_unfold _ _) A) as (W & Ta & Hn).
+  destruct (is_act_find _ _ Ta) as (pb & Fpb & Apb).
+  pose proof (find_cfind _ _ _ Fb) as Cb.
+  pose proof (wf_parent_height _ _ _ W Cb Hxr) as Hph. change (e_par (core b)) with (b_par ccmd b) in Hph. rewrite Hp in Hph.
+  assert (Hina : b_act ccmd b = false).
+  { destruct (b_act ccmd b) eqn:Ab; [|reflexivity]. exfalso.
+    assert (is_act (cores s) x) by (exists (core b); split; [exact Cb|exact Ab]). pose proof (alone_active _ _ _ A H). lia. }
+  pose proof (no_active_child s cur x A Hxr ltac:(lia)) as Hnc.
+  destruct (groups_succeed base s cur x b A C T Fb Hp Hxr Hl) as (p' & Eg).
+  assert (Hfc : b_fc ccmd b = false).
+  { unfold is_failed in Hnf. apply orb_false_iff in Hnf. apply Hnf. }
+  assert (E : exists s', c_applyBlock s x = Ok (s', true)).
+  { unfold c_applyBlock, applyBlock. rewrite Fb. apply N.eqb_neq in Hxr. rewrite Hxr. rewrite Hp, Fpb, Apb. cbn [negb].
+    rewrite Hina, Hnc, Hfc, Hnf.
+    assert (N.ltb (b_lvl ccmd b) L_CONNECTED = false) by (apply N.ltb_ge; unfold L_CONNECTED, L_FULL in *; lia). rewrite H.
+    rewrite Eg. cbn [negb].
+    match goal with |- context [N.ltb (b_lvl ccmd b) ?u && _] => assert (Hu : N.ltb (b_lvl ccmd b) u = false) end.
+    { apply N.ltb_ge. destruct (valid_upto ccmd pb L_FULL && _); unfold L_FULL, L_MAYBE in *; lia. }
+    rewrite Hu. cbn. eexists. reflexivity. }
+  destruct E as (s' & E). exists s'. split; [exact E|].
+  destruct (apply_ok_core _ _ _ W E) as (W1 & C1 & N1 & R1 & T1 & (e0 & He0 & _)).
+  assert (S1 : same_static (cores s) (cores s')) by (rewrite C1; apply same_static_cupd).
+  pose proof (fun j => hgt_static _ _ j S1) as HS.
+  split; [|split; [eapply ginv_apply; [split; [exact WI|split; eassumption]|exact E]|split; [constructor; assumption|]]].
+  - apply alone_unfold. split; [exact W1|]. split.
+    + rewrite C1. exists (setact x true e0). rewrite cfind_cupd', He0. split; [reflexivity|].
+      unfold setact. apply cfind_some in He0. destruct He0 as [Hid _]. rewrite Hid, N.eqb_refl. reflexivity.
+    + rewrite N1, R1, ?HS. lia.
+  - apply (proj2 (md_apply_ok _ _ _ E)). exists b. split; [exact Fb|exact Hl].
+Qed.
